@@ -221,3 +221,46 @@ def unread(m, meta):
             os.close(master)
             os.close(slave)
     return {"reproduced": bool(problems), "input": "scripted terminal on a pty, DA1 reply delayed", "observed": [repr(p)[:300] for p in problems[:2]]}
+
+
+def stale_input(m, meta):
+    """bytes already queued on the terminal when a query starts (the late reply to an earlier, interrupted query) are not taken for
+    the reply: the query returns exactly what the terminal answers to THIS request"""
+    import os, pty, threading, time, termios
+    import term_image
+    import term_image.utils as U
+    problems = []
+    master, slave = pty.openpty()
+    saved = U._tty_fd
+    try:
+        U._tty_fd = slave
+        term_image.enable_queries()
+        attr = termios.tcgetattr(slave)
+        attr[3] &= ~(termios.ICANON | termios.ECHO)
+        termios.tcsetattr(slave, termios.TCSANOW, attr)
+        for stale in (b"\x1b]10;rgb:1111/2222/3333\x1b\\\x1b[?62;c", b"\x1b[?1;2c", b"xyz"):
+            os.write(master, stale)                 # arrives before the query is made
+            time.sleep(0.05)
+            got_request = []
+
+            def terminal():
+                deadline = time.time() + 2
+                buf = b""
+                while time.time() < deadline and not buf.endswith(b"\x1b[c"):
+                    try:
+                        buf += os.read(master, 100)
+                    except OSError:
+                        break
+                got_request.append(buf)
+                os.write(master, b"\x1bP>|term 9.9\x1b\\\x1b[?62;c")
+            t = threading.Thread(target=terminal)
+            t.start()
+            reply = U.query_terminal(b"\x1b[>q\x1b[c", lambda s: not s.endswith(b"c"), 1.0)
+            t.join(3)
+            if reply != b"\x1bP>|term 9.9\x1b\\\x1b[?62;c":
+                problems.append({"queued before the query": stale, "query returned": reply, "the terminal's answer to the request": b"\x1bP>|term 9.9\x1b\\\x1b[?62;c"})
+            U.read_tty()
+    finally:
+        U._tty_fd = saved
+        os.close(master); os.close(slave)
+    return {"reproduced": bool(problems), "input": "a pty with bytes queued before query_terminal() is called", "observed": [repr(p)[:300] for p in problems[:2]]}
